@@ -85,6 +85,12 @@ def check_config(ctx, F, tag):
         for x in mutation_sites(b, o, by_ref=False):
             if x not in sites:
                 sites.append(x)
+    # taking the builder apart (moving a field out of it) touches it just as much
+    for bi, si, st in b.stmts():
+        if st["s"] == "assign" and not st["lhs"]["p"] and st["rv"]["r"] == "use" and "m" in st["rv"]["o"]:
+            q = st["rv"]["o"]["m"]
+            if q["l"] in owners and q["p"] and all(isinstance(e, dict) and "f" in e for e in q["p"]):
+                sites.append((bi, "move", "." + ".".join(str(e.get("name", e["f"])) for e in q["p"]), st["sp"]))
     errs = err_blocks(b)
     can = b.can_reach(errs)
     bad = [(bi, k, d) for bi, k, d, sp in sites if bi in can]
@@ -96,6 +102,12 @@ def check_config(ctx, F, tag):
     ctx.ob("C16.R4.try-from-refuses-before-mutation", tf + tag, loc(b.raw["span"]), not bad and sites and all(guarded) and errs, "per-path-effects+guard",
            "mutations of the builder %s; each dominated by is_full() == true: %s; reachable Err after a mutation: %s" % ([(k, d) for _, k, d, _ in sites], guarded, bad))
     names = [d for _, k, d, _ in sites if k == "call"]
+    # ... or on the bitvector made from the builder's `high` (`BitVector::from(high)` first, then enable): any enable_* call behind the guard
+    for bi, t in b.calls():
+        cn = callee_name(t)
+        if cn.endswith(("::enable_select", "::enable_select_zero")) and cn not in names and \
+                any(f[0] == "bool" and f[2] is True and m(Call(SB + "::is_full", ANY), f[1]) for f in facts_at(b, bi)):
+            names.append(cn)
     ctx.ob("C16.R4.try-from-enables-supports", tf + tag, loc(b.raw["span"]),
            any(n.endswith("::enable_select") for n in names) and any(n.endswith("::enable_select_zero") for n in names), "must-call",
            "calls on the built high bitvector: %s" % names, nontrivial=False)
@@ -225,7 +237,7 @@ def check_set_len_extends(ctx, F, tag, rule="C16.R4.set-len-only-extends"):
         fs = facts_at(b, bi)
         ok = any(f[0] == "cmp" and ((f[1] == "Gt" and core(f[2]) == lenp and m(Call(RB + "::len", Param(0)), f[3])) or
                                     (f[1] == "Lt" and core(f[3]) == lenp and m(Call(RB + "::len", Param(0)), f[2]))) for f in fs)
-        ctx.ob(rule, "%s::set_len|%s %s#%d%s" % (RB, kind, what.split("::")[-1], k, tag), loc(sp), ok, "guard-dominance",
+        ctx.ob(rule, "%s::set_len|%s %s%s" % (RB, kind, what.split("::")[-1], tag), loc(sp), ok, "guard-dominance",
                "%s %s in set_len is behind `len > self.len()`: %s" % (kind, what.split("::")[-1], ok))
     for bi, si, st in stores:
         val = b.term_of_rvalue(st["rv"])
@@ -280,7 +292,7 @@ def check_comutation(ctx, F, tag, prefix="C16.R3"):
             for k, (bi, si, st) in enumerate(trig):
                 n += 1
                 ok = comutated_ip(b, bi, part, after_calls)
-                ctx.ob(prefix + ".co-mutation", "%s|%s.%s~%s#%d%s" % (b.name, adt.split("::")[-1], a, partner, k, tag), loc(st["sp"]), ok, "co-mutation",
+                ctx.ob(prefix + ".co-mutation", "%s|%s.%s~%s#%d%s" % (b.name, adt.split("::")[-1], a, partner, k, tag), loc(st["sp"]), ok, "co-mutation", positive=True, detail=
                        "store to %s.%s %s a direct store to .%s on the same path (a callee counts only if it runs after the store and stores .%s on all of its paths)" % (adt.split("::")[-1], a, "is accompanied by" if ok else "is NOT accompanied by", partner, a))
         ctx.count("co-mutation-triggers-%s%s" % (adt.split("::")[-1], tag), n)
     # (a clean-up may merge two stores of one function into one: the floor is the number of mutators that must still store, not
